@@ -145,3 +145,101 @@ theorem forwarded_ribForward {P : Type} (ps : List P) :
   split <;> simp [forwarded]
 
 end Rotonda.Roto
+
+namespace Rotonda.Roto
+
+theorem state_handleMsg {σ M F : Type} (drain : M → List Output → List Osm)
+    (filter : Option (M → Verdict × List Output)) (process : σ → M → σ × List F) (s : σ) (m : M) :
+    (handleMsg drain filter process s m).1 =
+      (match (filterResult filter m).1 with | .accept => (process s m).1 | .reject => s) := by
+  rw [handleMsg_eq]; cases (filterResult filter m).1 <;> rfl
+
+theorem forwarded_handleMsg {σ M F : Type} (drain : M → List Output → List Osm)
+    (filter : Option (M → Verdict × List Output)) (process : σ → M → σ × List F) (s : σ) (m : M) :
+    forwarded (handleMsg drain filter process s m).2 =
+      (match (filterResult filter m).1 with | .accept => (process s m).2 | .reject => []) := by
+  rw [handleMsg_eq]
+  cases (filterResult filter m).1
+  · simp [forwarded_append, forwarded_osOf, forwarded_map_fwd]
+  · simp [forwarded_osOf]
+
+theorem emitted_handleMsg {σ M F : Type} (drain : M → List Output → List Osm)
+    (hnil : ∀ m, drain m [] = [])
+    (filter : Option (M → Verdict × List Output)) (process : σ → M → σ × List F) (s : σ) (m : M) :
+    emitted (handleMsg drain filter process s m).2 = drain m (filterResult filter m).2 := by
+  rw [handleMsg_eq]
+  have h := emitted_osOf (F := F) (drain m (filterResult filter m).2) (filterResult filter m).2
+    (fun e => by rw [e]; exact hnil m)
+  cases (filterResult filter m).1
+  · simp [emitted_append, emitted_map_fwd, h]
+  · simp [h]
+
+theorem drainSkipPd_nil (k : Bool) : drainSkipPd k [] = [] := rfl
+theorem drainBmp_nil (k pd : Bool) : drainBmp k pd [] = [] := rfl
+
+/-- the unfiltered handler run over the messages -/
+theorem handleMsgs_sieve {σ M F : Type} (drain : M → List Output → List Osm)
+    (filter : Option (M → Verdict × List Output)) (process : σ → M → σ × List F) (s : σ) (ms : List M) :
+    (handleMsgs drain filter process s ms).1 = (handleMsgs drain none process s (accepted filter ms)).1 ∧
+    forwarded (handleMsgs drain filter process s ms).2 =
+      forwarded (handleMsgs drain none process s (accepted filter ms)).2 := by
+  induction ms generalizing s with
+  | nil => exact ⟨rfl, rfl⟩
+  | cons m ms ih =>
+    simp only [handleMsgs, accepted, List.filter_cons]
+    cases h : (filterResult filter m).1
+    · -- accepted
+      have hs := state_handleMsg drain filter process s m
+      have hf := forwarded_handleMsg drain filter process s m
+      have hs0 := state_handleMsg drain none process s m
+      have hf0 := forwarded_handleMsg drain none process s m
+      simp only [h] at hs hf
+      simp only [filterResult] at hs0 hf0
+      simp only [decide_true, ite_true, handleMsgs, forwarded_append, hs, hf, hs0, hf0]
+      have := ih (process s m).1
+      simp only [accepted] at this
+      exact ⟨this.1, by rw [this.2]⟩
+    · -- rejected
+      have hs := state_handleMsg drain filter process s m
+      have hf := forwarded_handleMsg drain filter process s m
+      simp only [h] at hs hf
+      have := ih s
+      simp only [accepted] at this
+      simp [forwarded_append, hs, hf, this.1, this.2]
+
+theorem handleMsgs_emitted {σ M F : Type} (drain : M → List Output → List Osm)
+    (hnil : ∀ m, drain m [] = [])
+    (filter : Option (M → Verdict × List Output)) (process : σ → M → σ × List F) (s : σ) (ms : List M) :
+    emitted (handleMsgs drain filter process s ms).2 =
+      ms.flatMap fun m => drain m (filterResult filter m).2 := by
+  induction ms generalizing s with
+  | nil => rfl
+  | cons m ms ih =>
+    simp only [handleMsgs, List.flatMap_cons, emitted_append, ih, emitted_handleMsg drain hnil]
+
+theorem closed_exec (env : List Const) (v : View) (p : Prog) (h : p.closed = true) :
+    ((p.exec env v).2).isSome = true := by
+  induction p with
+  | ret x => rfl
+  | fall => simp [Prog.closed] at h
+  | out o k ih => simp only [Prog.closed] at h; simpa [Prog.exec] using ih h
+  | ite c t e iht ihe =>
+    simp only [Prog.closed, Bool.and_eq_true] at h
+    simp only [Prog.exec]
+    split
+    · exact iht h.1
+    · exact ihe h.2
+  | blk b k ihb ihk =>
+    simp only [Prog.closed, Bool.or_eq_true] at h
+    simp only [Prog.exec]
+    cases hb : b.exec env v with
+    | mk o r =>
+      cases r with
+      | some x => simp
+      | none =>
+        simp only
+        rcases h with h | h
+        · have := ihb h; simp [hb] at this
+        · exact ihk h
+
+end Rotonda.Roto
